@@ -57,6 +57,8 @@ def run(ctx: Ctx, rep: Report) -> None:
     nf(ctx, rep, circ)
     coup(ctx, rep)
     daglink(ctx, rep)
+    from . import circuit_extra
+    circuit_extra.readapi_spec(ctx, rep)
 
 
 # ---------------------------------------------------------------------------
